@@ -507,5 +507,8 @@ def run_C13(ctx):
                 c.meta["cls_kind"] = "stream-limit"
                 cases.append(c)
     res = ctx.run(cases)
-    # C13 speaks about outcomes (ok / err / panic) and about buffers after an error, not about the bytes produced
-    ctx.check_absolute(cases, res, project=kinds_only)
+    # C13 speaks about outcomes (ok / err / panic) and about buffers after an error, not about the bytes produced;
+    # near the keystream limit the ok/err decision belongs to C11: there C13 only demands "no panic"
+    lim = [c for c in cases if c.meta.get("cls_kind") == "stream-limit"]
+    ctx.check_absolute([c for c in cases if c.meta.get("cls_kind") != "stream-limit"], res, project=kinds_only)
+    ctx.no_panic(lim, res)
